@@ -29,6 +29,7 @@ import (
 	"errors"
 	"fmt"
 	"math/big"
+	"runtime"
 	"sort"
 	"strings"
 	"sync"
@@ -290,6 +291,7 @@ type c04Spec struct {
 	LocalSq int       `json:"local_seq,omitempty"`
 	LocalTg int       `json:"local_tag,omitempty"`
 	Plan    string    `json:"plan,omitempty"`          // name of the fixed tie scenario (empty: random case)
+	KeepCtx bool      `json:"keep_context,omitempty"`  // the caller's context stays alive after the call: background work must end by itself or at Close
 	Slow    bool      `json:"slow_consumer,omitempty"` // search: the caller reads the result channel only once nothing else moves
 	K       int       `json:"bucket_size,omitempty"`   // 0: 20
 	Resps   []c04Resp `json:"resps"`                   // responder i answers with Resps[i]
@@ -806,6 +808,43 @@ func (r *c04Run) run(t *testing.T) {
 	if !consuming {
 		consuming = true
 		close(consume)
+	}
+	if spec.KeepCtx && finished() {
+		// the caller keeps its context: requests still in flight are answered, then the client is closed and
+		// every timeout may fire; nothing of the operation may be left running after that
+		for i := 0; i < 100; i++ {
+			synctest.Wait()
+			pend := r.gate.take()
+			if len(pend) == 0 {
+				break
+			}
+			for _, c := range pend {
+				r.gate.release(c)
+			}
+		}
+		for _, c := range closers {
+			_ = c()
+		}
+		closers = nil
+		time.Sleep(3 * time.Hour)
+		synctest.Wait()
+		buf := make([]byte, 1<<20)
+		st := string(buf[:runtime.Stack(buf, true)])
+		for _, fn := range []string{"(*FullRT).execOnMany", "(*FullRT).getValues", "(*IpfsDHT).getValues", "(*IpfsDHT).runLookupWithFollowup", "processValues"} {
+			if strings.Contains(st, fn) && r.obs.Fail == "" {
+				blk := ""
+				for _, g := range strings.Split(st, "\n\n") {
+					if strings.Contains(g, fn) {
+						blk = g
+						break
+					}
+				}
+				if len(blk) > 1500 {
+					blk = blk[:1500]
+				}
+				r.obs.Fail = "background work of the value lookup is still running after Close and after every timeout, with the caller's context alive: a goroutine in " + fn + "\n" + blk
+			}
+		}
 	}
 	// let everything still in flight finish: fail the parked requests, let the
 	// timeouts fire
